@@ -42,7 +42,10 @@ def plan(tier, seed):
 
 
 def shard(ctx):
-    prof = StreamProfile(knobs_fn=knobs, script_len=ctx.params["script_len"])
+    from ..templates import any_template
+
+    prof = StreamProfile(knobs_fn=knobs, script_len=ctx.params["script_len"], templates=any_template)
+    prof.template_prob = 0.3
     run_stream(ctx, prof, [EquivMonitor(ctx, ninputs=ctx.params["ninputs"])])
 
 
